@@ -78,7 +78,8 @@ def _task(task):
         c = {}
         for u in units:
             for v in units:
-                c[u, v] = [conv(qt, u, v, x) for x in V]
+                # (u -> u is asked with two DISTINCT but equal string objects, as a symbol read from a file would be)
+                c[u, v] = [conv(qt, u, v if v is not u else (u + " ")[:-1], x) for x in V]
                 part.count("evaluations", len(V))
         max_off = max(abs(o) for _s, o in lin.values())
         # the same conversions asked with the units in list form with exponent 1 ([(u, 1)] -> [(v, 1)]): the same
